@@ -394,20 +394,36 @@ def check_split_buffers(rng, out):
     ff = rng.random() < 0.4
     bdir = rng.choice(["o", "io", "io"])
     port = io.SimulationPort("io", w, invert=inv, name="pad")
+    # the buffers may sit on slices of a re-ordered view of the port (a stepped slice is a concatenation of
+    # one-bit pieces, sliced again here)
+    order = rng.choice(["plain", "plain", "reversed", "evens-then-odds"])
+    if order == "reversed":
+        view, perm = port[::-1], list(range(w - 1, -1, -1))
+    elif order == "evens-then-odds" and w >= 2:
+        view, perm = port[::2] + port[1::2], list(range(0, w, 2)) + list(range(1, w, 2))
+    else:
+        order, view, perm = "plain", port, list(range(w))
     m = Module()
     cd = ClockDomain("sync", reset_less=True)
     m.domains.sync = cd
     src, en = Signal(w, name="src"), Signal(name="en")
     got_i = Signal(w, name="got_i")
     for k, (lo, hi) in enumerate(zip(cuts, cuts[1:])):
-        buf = (io.FFBuffer if ff else io.Buffer)(bdir, port[lo:hi])
+        buf = (io.FFBuffer if ff else io.Buffer)(bdir, view[lo:hi])
         m.submodules[f"buf{k}"] = buf
         m.d.comb += [buf.o.eq(src[lo:hi]), buf.oe.eq(en)]
         if bdir == "io":
             m.d.comb += got_i[lo:hi].eq(buf.i)
     sim = Simulator(m)
-    cfg = {"kind": "buffers-on-slices-of-one-port", "width": w, "invert": list(inv), "cuts": cuts, "ffbuffer": ff, "buffer_dir": bdir}
-    out["hist"]["split-buffers:" + ("ff" if ff else "comb") + ":" + bdir] = out["hist"].get("split-buffers:" + ("ff" if ff else "comb") + ":" + bdir, 0) + 1
+    cfg = {"kind": "buffers-on-slices-of-one-port", "width": w, "invert": list(inv), "cuts": cuts, "ffbuffer": ff, "buffer_dir": bdir,
+           "port_view": order}
+
+    def to_port(v):          # buffer-side bit k drives / reads port bit perm[k], inverted per port bit
+        return sum(((((v >> k) & 1) ^ int(inv[perm[k]])) << perm[k]) for k in range(w))
+
+    def from_port(pv):
+        return sum(((((pv >> perm[k]) & 1) ^ int(inv[perm[k]])) << k) for k in range(w))
+    out["hist"]["split-buffers:" + ("ff" if ff else "comb") + ":" + bdir + ":" + order] = out["hist"].get("split-buffers:" + ("ff" if ff else "comb") + ":" + bdir + ":" + order, 0) + 1
     full = (1 << w) - 1
     bad = []
 
@@ -420,9 +436,9 @@ def check_split_buffers(rng, out):
             if ff:
                 ctx.set(cd.clk, 1)
                 po, poe = ctx.get(port.o), ctx.get(port.oe)
-                if (po, poe) != (sv ^ M, full if ev_ else 0):
+                if (po, poe) != (to_port(sv), full if ev_ else 0):
                     bad.append(dict(step=step, when="right after the clock edge", src=sv, en=ev_, port_o=po, port_oe=poe,
-                                    expected_o=sv ^ M, expected_oe=full if ev_ else 0))
+                                    expected_o=to_port(sv), expected_oe=full if ev_ else 0))
                     return
                 ctx.set(cd.clk, 0)
                 if bdir == "io":
@@ -430,12 +446,12 @@ def check_split_buffers(rng, out):
                     ctx.set(cd.clk, 0)
             po, poe = ctx.get(port.o), ctx.get(port.oe)
             out["evaluations"] += 1
-            if (po, poe) != (sv ^ M, full if ev_ else 0):
-                bad.append(dict(step=step, src=sv, en=ev_, port_o=po, port_oe=poe, expected_o=sv ^ M, expected_oe=full if ev_ else 0))
+            if (po, poe) != (to_port(sv), full if ev_ else 0):
+                bad.append(dict(step=step, src=sv, en=ev_, port_o=po, port_oe=poe, expected_o=to_port(sv), expected_oe=full if ev_ else 0))
                 return
             if bdir == "io":
                 gi = ctx.get(got_i)
-                exp = sv if ev_ else (pi ^ M)
+                exp = sv if ev_ else from_port(pi)
                 if gi != exp:
                     bad.append(dict(step=step, src=sv, en=ev_, pad_i=pi, fabric_i=gi, expected_i=exp))
                     return
@@ -500,7 +516,7 @@ def run_shard(spec):
                                    "model": "pad.o = o_ff ^ 0b110, pad.oe = oe_ff x3, i = i_ff; one register per direction"})
         try:
             from . import c18_real
-            c18_real.run(rng, out, 6 if spec["tier"] == "quick" else 40)
+            c18_real.run(rng, out, 12 if spec["tier"] == "quick" else 60)
             c18_real.run_composite(rng, out, 80 if spec["tier"] == "quick" else 600)
         except ImportError:
             pass
